@@ -1,7 +1,194 @@
-/- line-protocol handler for model "cq" (stub until its model is built) -/
+/-
+  line-protocol handler for model "cq" (chunk queue, C17); same protocol and
+  canonical output as harness/inproc/h_cq.c:
+    seq <chunksz> <tmpsz> <ndirs> <wsched> <msched> <files> <op> <op> ...
+-/
+import LtVerif.Model.Cq
 namespace Driver
+open LtVerif LtVerif.Cq
+
+namespace CqD
+
+/-- pat(seed, i) of h_cq.c -/
+def patByte (seed i : Nat) : UInt8 :=
+  UInt8.ofNat ((seed * 37 + i * 131 + (i / 256) * 17 + (i / 65536) * 5) % 256)
+
+def pat (seed n : Nat) : Bytes := (List.range n).map (patByte seed)
+
+def crcTable : Array UInt32 :=
+  Array.ofFn (n := 256) fun i =>
+    (List.range 8).foldl
+      (fun (c : UInt32) _ => if c &&& 1 = 1 then (c >>> 1) ^^^ 0xEDB88320 else c >>> 1)
+      i.val.toUInt32
+
+def crcStep (c : UInt32) (b : UInt8) : UInt32 :=
+  crcTable[((c ^^^ b.toUInt32) &&& 0xff).toNat]! ^^^ (c >>> 8)
+
+/-- running CRC-32 (zlib), state is the complemented register -/
+def crcFeed (c : UInt32) (bs : Bytes) : UInt32 := bs.foldl crcStep c
+
+def hexDigit (n : Nat) : Char := if n < 10 then Char.ofNat (48 + n) else Char.ofNat (87 + n)
+
+def hex8 (v : UInt32) : String :=
+  let n := v.toNat
+  String.ofList ((List.range 8).map fun i => hexDigit ((n >>> (4 * (7 - i))) % 16))
+
+def crcHex (bs : Bytes) : String := hex8 (crcFeed 0xFFFFFFFF bs ^^^ 0xFFFFFFFF)
+
+/-- chunkqueue_set_chunk_size() -/
+def chunkSize (sz : Nat) : Nat :=
+  if sz = 0 then 8192
+  else (List.range 20).foldl (fun x _ => if x < sz then x * 2 else x) 1024
+
+structure St where
+  w : World
+  q0 : Cq
+  q1 : Cq
+  nsrc : Nat
+
+def St.q (s : St) (i : Nat) : Cq := if i % 2 = 0 then s.q0 else s.q1
+def St.setQ (s : St) (i : Nat) (q : Cq) : St := if i % 2 = 0 then { s with q0 := q } else { s with q1 := q }
+
+def readable (w : World) : Chunk → Bytes
+  | .mem d off _ => d.drop off
+  | .file fid off len _ fd =>
+    if fd.isOpen || (w.files fid).nlink > 0 then ((w.files fid).content.drop off).take (len - off) else []
+
+def layoutChunk : Chunk → String
+  | .mem d off _ => "M" ++ toString (d.length - off)
+  | .file _ off len t fd => (if t then "T" else "F") ++ toString (len - off) ++ (if fd.isOpen then "+" else "")
+
+def dumpCq (w : World) (i : Nat) (q : Cq) : String :=
+  let parts := q.chunks.map (readable w)
+  let n := parts.foldl (fun a p => a + p.length) 0
+  let c := parts.foldl crcFeed 0xFFFFFFFF ^^^ 0xFFFFFFFF
+  let lay := if q.chunks.isEmpty then "-" else ".".intercalate (q.chunks.map layoutChunk)
+  s!" q{i}:{q.length},{q.bytesIn},{q.bytesOut},{q.tdIdx},{n},{hex8 c},{lay}"
+
+def dumpState (s : St) : String :=
+  let temps := (List.range (s.w.nfiles - s.nsrc)).filterMap fun k =>
+    let f := s.w.files (s.nsrc + k)
+    if f.nlink > 0 then some s!"{k}@{f.dir}" else none
+  let fds := (List.range s.w.nfiles).foldl (fun a k => a + (s.w.files k).nfd) 0
+  dumpCq s.w 0 s.q0 ++ dumpCq s.w 1 s.q1 ++ " t:" ++ (if temps.isEmpty then "-" else ",".intercalate temps)
+    ++ s!" fd:{fds}"
+
+def allMem (q : Cq) : Bool := !q.chunks.isEmpty && q.chunks.all Chunk.isMem
+
+def rcStr (ok : Bool) : String := if ok then "0" else "-1"
+
+/-- one operation: new state and the result token -/
+def doOp (s : St) (tok : String) : St × String :=
+  let f := tok.splitOn ","
+  match f with
+  | op :: qs :: args =>
+    match qs.toNat?, args.mapM String.toNat? with
+    | some qi, some a =>
+      let q := s.q qi
+      let o := s.q (qi + 1)
+      match op, a with
+      | "am", [seed, len] =>
+        let (w, q) := appendMem s.w q (pat seed len); ({ s with w := w }.setQ qi q, op)
+      | "an", [seed, len] =>
+        let (w, q) := appendMemMin s.w q (pat seed len); ({ s with w := w }.setQ qi q, op)
+      | "ab", [seed, len] =>
+        let (w, q) := appendBuffer s.w q (pat seed len); ({ s with w := w }.setQ qi q, op)
+      | "bo", [seed, len] =>
+        let (w, q) := appendBufferOpen s.w q (pat seed len); ({ s with w := w }.setQ qi q, op)
+      | "gm", [req, seed, use] =>
+        let (w, q, avail) := getUseMemory s.w q req use (pat seed)
+        ({ s with w := w }.setQ qi q, s!"gm:{avail}")
+      | "af", [fid, off, len] =>
+        if fid ≥ s.nsrc then (s, "bad-op") else
+        let (w, q) := appendFile s.w q fid off len false; ({ s with w := w }.setQ qi q, op)
+      | "ad", [fid, off, len] =>
+        if fid ≥ s.nsrc then (s, "bad-op") else
+        let (w, q) := appendFile s.w q fid off len true; ({ s with w := w }.setQ qi q, op)
+      | "ac", [] =>
+        let (q, o) := appendChunkqueue q o; ((s.setQ qi q).setQ (qi + 1) o, op)
+      | "mt", [seed, len] =>
+        let (w, q, ok) := appendMemToTempfile s.w q (pat seed len)
+        ({ s with w := w }.setQ qi q, "mt:" ++ rcStr ok)
+      | "st", [n] =>
+        let (w, q, o) := steal s.w q o n; (({ s with w := w }.setQ qi q).setQ (qi + 1) o, op)
+      | "sw", [n] =>
+        let (w, q, o, ok) := stealWithTempfiles s.w q o n
+        (({ s with w := w }.setQ qi q).setQ (qi + 1) o, "sw:" ++ rcStr ok)
+      | "cr", [si, off, len] =>
+        if si % 2 = qi % 2 then
+          if len > 0 ∧ (off + len : Int) > q.length then (s, "cr:skip")
+          else
+            let (w, q) := appendCqRangeSelf s.w q off len; ({ s with w := w }.setQ qi q, op)
+        else
+          let (w, q) := appendCqRange s.w q o off len; ({ s with w := w }.setQ qi q, op)
+      | "mw", [n] =>
+        if (n : Int) ≤ q.length then
+          let (w, q) := markWritten s.w q n; ({ s with w := w }.setQ qi q, op)
+        else (s, "mw:skip")
+      | "rf", [] => let (w, q) := removeFinished s.w q; ({ s with w := w }.setQ qi q, op)
+      | "re", [] => let (w, q) := removeEmpty s.w q; ({ s with w := w }.setQ qi q, op)
+      | "cm", [clen] =>
+        if allMem q then let (w, q) := compactMem s.w q clen; ({ s with w := w }.setQ qi q, op)
+        else (s, "cm:skip")
+      | "co", [] =>
+        if q.chunks.isEmpty then (s, "co:skip") else (s.setQ qi (compactMemOffset q), op)
+      | "pk", [n] =>
+        let (w, q, data, ok) := peekData s.w q n
+        ({ s with w := w }.setQ qi q, s!"pk:{rcStr ok},{data.length},{crcHex data}")
+      | "rd", [n] =>
+        match readData s.w q n with
+        | (w, q, some data) => ({ s with w := w }.setQ qi q, s!"rd:0,{crcHex data}")
+        | (w, q, none) => ({ s with w := w }.setQ qi q, "rd:-1")
+      | "sq", [] =>
+        let (w, q, ok) := readSquash s.w q
+        ({ s with w := w }.setQ qi q, if ok then "sq:1" else "sq:0")
+      | "rs", [] => let (w, q) := reset s.w q; ({ s with w := w }.setQ qi q, op)
+      | _, _ => (s, "bad-op")
+    | _, _ => (s, "bad-op")
+  | _ => (s, "bad-op")
+
+def parseW (s : String) : Option (List WFault) :=
+  if s = "-" then some [] else
+  (s.splitOn ",").mapM fun t =>
+    if t = "k" then some WFault.ok
+    else if t = "i" then some .eintr
+    else if t = "n" then some .enospc
+    else if t = "e" then some .eio
+    else if t.startsWith "s" then (t.drop 1).toString.toNat?.map WFault.short
+    else none
+
+def parseM (s : String) : Option (List Bool) :=
+  if s = "-" then some [] else
+  s.toList.mapM fun c => if c = 'k' then some false else if c = 'f' then some true else none
+
+def parseFiles (s : String) : Option (List Nat) :=
+  if s = "-" then some [] else ((s.splitOn ",").take 4).mapM String.toNat?
+
+def initWorld (cs tmpsz ndirs : Nat) (ws : List WFault) (ms : List Bool) (files : List Nat) : World :=
+  let fl : List File := files.zipIdx.map fun (sz, fid) => { content := pat fid sz, nlink := 1 }
+  { cs := chunkSize cs, defTempSize := if tmpsz = 0 then 1048576 else tmpsz, ndirs := ndirs,
+    files := fun i => fl.getD i {}, nfiles := fl.length, wsched := ws, msched := ms }
+
+def runOps (s : St) (ops : List String) : String :=
+  let (s, out) := ops.foldl (fun (acc : St × String) tok =>
+    let (s, o) := acc
+    let (s', r) := doOp s tok
+    (s', o ++ r ++ dumpState s' ++ " | ")) (s, "")
+  let (w, q0) := reset s.w s.q0
+  let (w, q1) := reset w s.q1
+  out ++ "end" ++ dumpState { s with w := w, q0 := q0, q1 := q1 }
+
+end CqD
 
 def cqLine : List String → String
+  | "seq" :: cs :: tmpsz :: ndirs :: ws :: ms :: files :: ops =>
+    match cs.toNat?, tmpsz.toNat?, ndirs.toNat?, CqD.parseW ws, CqD.parseM ms, CqD.parseFiles files with
+    | some cs, some tmpsz, some ndirs, some ws, some ms, some files =>
+      if ndirs > 3 then "bad-op" else
+      let w := CqD.initWorld cs tmpsz ndirs ws ms files
+      let q : Cq := { tempSize := w.defTempSize }
+      CqD.runOps { w := w, q0 := q, q1 := q, nsrc := files.length } ops
+    | _, _, _, _, _, _ => "bad-op"
   | _ => "bad-op"
 
 end Driver
